@@ -81,6 +81,10 @@ pub fn fail(sig: impl Into<String>, what: impl Into<String>) -> Sexp {
 }
 
 pub mod c11;
+pub mod lw;
+pub mod c02;
+pub mod c05;
+pub mod c09;
 pub mod c07;
 pub mod c15;
 pub mod c12;
@@ -98,6 +102,9 @@ pub mod c19;
 pub fn all() -> Vec<Box<dyn Prop>> {
     vec![
         Box::new(c11::C11),
+        Box::new(c02::C02),
+        Box::new(c05::C05),
+        Box::new(c09::C09),
         Box::new(c07::C07),
         Box::new(c15::C15),
         Box::new(c12::C12),
